@@ -107,7 +107,8 @@ WORLD_TEMPLATES = [
             # lambda_ unset: the cross-validation path shuffles with the model's generator
             "A": dict(estimands=["margin"], pis=OMIT, mp={"B": 12}, aggregates=["postal_code", "unit"],
                       features=["baseline_normalized_margin", "x1"], fixed_effects={}),
-            "B": dict(estimands=["margin"], pis=[0.9, 0.5], mp=dict(OUTLIERS_OFF, B=16, lambda_=1.0),
+            # several strata columns: the order of the list the caller passed must be kept
+            "B": dict(estimands=["margin"], pis=[0.9, 0.5], mp=dict(OUTLIERS_OFF, B=16, lambda_=1.0, strata=["county_classification", "district"]),
                       aggregates=["postal_code", "county_fips", "county_classification", "unit"],
                       features=["baseline_normalized_margin", "x1", "x2"], fixed_effects=["county_classification"]),
         },
